@@ -29,7 +29,9 @@ class XGen {
   static std::string hexs(uint32_t v) { char b[16]; std::snprintf(b, sizeof b, "%X", v); return b; }
 
   std::string outStream() {
-    static const char *s[] = {"0", "0", "0", "255", "256", "512", "768", "1792", "2048", "257", "1023", "65792"};
+    // File indices 0, 3, 4, 6, 7 for output; 1, 2, 5 for input (one direction per index; a rare
+    // clash is kept on purpose: such a run is cut as io_wrong_mode).
+    static const char *s[] = {"0", "0", "0", "255", "768", "1024", "1792", "2048", "1023", "1600", "67328", "1536", "256"};
     return s[r.below(sizeof s / sizeof s[0])];
   }
   std::string inStream() {
@@ -149,6 +151,28 @@ public:
       body += std::string(isFunc ? "func " : "proc ") + name + "(" + formals + ") is " + ldecl + "{ " + init + st + (isFunc ? "; return " + expr(locals, 1) : std::string()) + " }\n";
       if (isFunc) { funcs.push_back(name); funcArity.push_back(arity); } else { procs.push_back(name); procArity.push_back(arity); }
     }
+    // Optional prelude: helpers that take an array parameter (string literals are passed to them),
+    // a recursive function, and a procedure that takes a function parameter.
+    std::vector<std::string> preludeCalls;
+    if (r.chance(1, 2)) {
+      body += "proc strout(array s, val n) is var i; { i := 0; while i < n do { put(s[i], 0); i := i + 1 } }\n";
+      body += "func strword(array s, val k) is return s[k]\n";
+      auto lit = [&]() { std::string t; size_t n = (size_t)r.below(9); for (size_t q = 0; q < n; q++) { char c = (char)('a' + r.below(26)); if (r.chance(1, 12)) { t += "\\n"; continue; } t.push_back(c); } return "\"" + t + "\""; };
+      int nc = 1 + (int)r.below(3);
+      for (int q = 0; q < nc; q++) {
+        if (r.chance(1, 2)) preludeCalls.push_back("strout(" + lit() + ", " + std::to_string(1 + r.below(2)) + ")");
+        else preludeCalls.push_back("put(strword(" + lit() + ", 0), " + outStream() + ")");
+      }
+    }
+    if (r.chance(1, 3)) {
+      body += "func rec(val n) is if n < 2 then return n else return rec(n - 1) + rec(n - 2)\n";
+      preludeCalls.push_back("put(rec(" + std::to_string(r.below(9)) + "), 0)");
+    }
+    if (r.chance(1, 25)) {      // calling through a func formal is rejected by the pinned compiler ("unknown label f"): rejected-class workload
+      body += "func twice(val x) is return x + x\n";
+      body += "proc apply(func f, val x) is put(f(x), 0)\n";
+      preludeCalls.push_back("apply(twice, " + std::to_string(r.below(100)) + ")");
+    }
     // main: initialise every global and array element, then act, then exit with a computed value.
     std::vector<std::string> locals;
     std::string ldecl, init;
@@ -160,6 +184,7 @@ public:
     int ns = 1 + (int)r.below(5);
     std::string acts;
     for (int k = 0; k < ns; k++) acts += stmt(locals, counters, 3, false) + "; ";
+    for (auto &c : preludeCalls) acts += c + "; ";
     inActual++;
     std::string finExpr = expr(locals, 1);
     inActual--;
@@ -180,7 +205,8 @@ inline std::string makeAsm(sim::Rng &r) {
   int nd = 1 + (int)r.below(4);
   for (int k = 0; k < nd; k++) s += "d" + std::to_string(k) + "\nDATA " + std::to_string((int64_t)r.range(-70000, 70000)) + "\n";
   s += "start\n";
-  static const int streams[] = {0, 0, 255, 256, 512, 768, 1792, 2048};
+  static const int streams[] = {0, 0, 255, 768, 1024, 1536, 1792, 2048};
+  static const int instreams[] = {0, 0, 0, 255, 256, 512, 1280, 1300};
   int nb = 2 + (int)r.below(8), lab = 0;
   auto data = [&]() { return "d" + std::to_string(r.below((uint64_t)nd)); };
   for (int b = 0; b < nb; b++) {
@@ -189,7 +215,7 @@ inline std::string makeAsm(sim::Rng &r) {
         s += "LDAC " + std::to_string(33 + r.below(90)) + "\nLDBM 1\nSTAI 2\nLDAC " + std::to_string(streams[r.below(8)]) + "\nSTAI 3\nLDAC 1\nOPR SVC\n";
         break;
       case 2:           // get a character into a data word
-        s += "LDAC " + std::to_string(r.chance(3, 4) ? 0 : streams[r.below(8)]) + "\nLDBM 1\nSTAI 2\nLDAC 2\nOPR SVC\nLDAM 1\nLDAI 1\nSTAM " + data() + "\n";
+        s += "LDAC " + std::to_string(instreams[r.below(8)]) + "\nLDBM 1\nSTAI 2\nLDAC 2\nOPR SVC\nLDAM 1\nLDAI 1\nSTAM " + data() + "\n";
         break;
       case 3:           // arithmetic on data words
         s += "LDAM " + data() + "\nLDBM " + data() + "\nOPR " + (r.chance(1, 2) ? "ADD" : "SUB") + "\nSTAM " + data() + "\n";
